@@ -252,7 +252,11 @@ class NpProxy(types.ModuleType):
         if dtype is not None and _isfloat(dtype) and _has_sym(obj):
             _used("np.asarray(sym, float)->object")
             dtype = object
-        return np.asarray(obj, dtype, *a, **k)
+        r = np.asarray(obj, dtype, *a, **k)
+        if r.dtype == object and r.size <= 64:
+            # e.g. `grad[index] = 0` leaves bare ints in a gradient array; keep every element a (constant) Sym
+            symify(r)
+        return r
 
     def issubdtype(self, a, b):
         if isinstance(b, tuple):
@@ -301,6 +305,33 @@ def _has_sym(obj):
     return False
 
 
+class _ObjArr(np.ndarray):
+    """object-dtype array whose reductions never hand back a bare Python number (an empty or all-int object
+    reduction yields `0`, which has no .shape/.ndim unlike the np.float64 a float array would give)"""
+
+    def sum(self, *a, **k):
+        r = np.ndarray.sum(self, *a, **k)
+        if not isinstance(r, np.ndarray):
+            out = np.empty((), dtype=object)
+            out[()] = r if isinstance(r, Sym) else Sym(r)
+            return out.view(_ObjArr)
+        return r
+
+
+def _wrap_reduce_broadcast(real):
+    def reduce_broadcast(grad, var_shape):
+        if isinstance(grad, np.ndarray) and grad.dtype == object and type(grad) is np.ndarray:
+            _used("reduce_broadcast on object arrays: reductions keep array type")
+            out = real(grad.view(_ObjArr), var_shape)
+            if isinstance(out, _ObjArr):
+                out = out.view(np.ndarray)
+            return out
+        return real(grad, var_shape)
+
+    reduce_broadcast.__wrapped__ = real
+    return reduce_broadcast
+
+
 PROXY = NpProxy()
 _installed = []
 
@@ -322,6 +353,14 @@ def install():
                 pass
     if n == 0:
         raise RuntimeError("np proxy could not be installed in any mygrad module")
+    import mygrad._utils as mu
+
+    if not hasattr(mu.reduce_broadcast, "__wrapped__"):
+        real = mu.reduce_broadcast
+        wrapped = _wrap_reduce_broadcast(real)
+        for name, mod in list(sys.modules.items()):
+            if (name == "mygrad" or name.startswith("mygrad.")) and getattr(mod, "reduce_broadcast", None) is real:
+                mod.reduce_broadcast = wrapped
     _patch_kernels()
     return n
 
